@@ -3,13 +3,14 @@
 
    Operations: 1 Parse, 2 NewBlockParser, 3 NextBlock, 4 Extract, 5 Rewrite, 6 Render(cfg), 7 AppendBlock(cfg),
                8 Format, 9 Walk (the user's Post callback may stop it early: it still returns, and whatever it leaves behind
-               must not be seen by any later call).
+               must not be seen by any later call), 10 NewBlockParser / 11 NextBlock on a SECOND parser value over another input:
+               parser values are independent, so a caller may hold several and advance them in any order between each other's calls.
    Every Call(op) is followed by exactly one Return(op, r).  Panic and Timeout are NOT actions of the
    specification, so a recorded history containing one is not a behaviour.  Results (reader and writer never
    fail): NextBlock returns a block (0) or end-of-input (1) and nothing else; after end-of-input every further
    NextBlock returns end-of-input; Render, Format report no error (0).
 
-   State: busy (the outstanding call, 0 if none), parser ("none" | "open" | "eof"), n (events consumed).
+   State: busy (the outstanding call, 0 if none), parser (one of "none" | "open" | "eof" per parser value), n (events consumed).
    The generator config explores all histories up to MaxEvents and checks the protocol invariants;
    trace mode folds the recorded history through the same Step relation (one state per recorded input).
    Recorded events: <<1, op, arg>> call, <<2, op, r>> return, <<5, op, r>> call immediately followed by its
@@ -19,16 +20,19 @@ EXTENDS Integers, Sequences, FiniteSets, TLC, Json
 
 CONSTANTS File, MaxEvents
 
-Ops == 1..9
+Ops == 1..11
+PIdx(op) == IF op \in {10, 11} THEN 2 ELSE 1      \* which parser value a NewBlockParser / NextBlock call is about
+IsNew(op) == op \in {2, 10}
+IsNext(op) == op \in {3, 11}
 ResultOK(op, r, parser) ==
-  CASE op = 3 -> r \in {0, 1} /\ (parser = "eof" => r = 1)
-    [] OTHER -> r = 0
+  IF IsNext(op) THEN r \in {0, 1} /\ (parser[PIdx(op)] = "eof" => r = 1)
+  ELSE r = 0
 CallOK(op, s) ==
   /\ s.busy = 0
-  /\ (op = 3 => s.parser # "none")
+  /\ (IsNext(op) => s.parser[PIdx(op)] # "none")
 AfterReturn(op, r, s) ==
   [s EXCEPT !.busy = 0,
-            !.parser = IF op = 2 THEN "open" ELSE IF op = 3 /\ r = 1 THEN "eof" ELSE @]
+            !.parser[PIdx(op)] = IF IsNew(op) THEN "open" ELSE IF IsNext(op) /\ r = 1 THEN "eof" ELSE @]
 \* one recorded event: new state, or the reason it is not a step of the specification
 Step(s, ev) ==
   LET k == ev[1]  op == ev[2]  r == ev[3] IN
@@ -44,7 +48,7 @@ Step(s, ev) ==
                       ELSE IF ~ResultOK(op, r, s.parser) THEN [s EXCEPT !.bad = "unexpected-result"]
                       ELSE AfterReturn(op, r, s))
   ELSE [s EXCEPT !.bad = "unknown-event"]
-S0 == [busy |-> 0, parser |-> "none", bad |-> ""]
+S0 == [busy |-> 0, parser |-> <<"none", "none">>, bad |-> ""]
 RECURSIVE Fold(_, _, _)
 Fold(s, evs, i) == IF i > Len(evs) THEN s ELSE Fold(Step(s, evs[i]), evs, i + 1)
 HistoryVerdict(evs) == LET s == Fold(S0, evs, 1) IN
@@ -55,16 +59,19 @@ VARIABLES s, hist, tid, verdict
 vars == <<s, hist, tid, verdict>>
 GenInit == s = S0 /\ hist = <<>> /\ tid = 0 /\ verdict = "ok"
 GenNext == /\ Len(hist) < MaxEvents
-           /\ \E k \in {1, 2, 5}, op \in {1, 2, 3, 6, 7, 8, 9}, r \in {0, 1} :
+           /\ \E k \in {1, 2, 5}, op \in {1, 2, 3, 6, 7, 8, 9, 10, 11}, r \in {0, 1} :
                 LET t == Step(s, <<k, op, r>>) IN
                 /\ t.bad = ""
                 /\ s' = t /\ hist' = Append(hist, <<k, op, r>>)
            /\ UNCHANGED <<tid, verdict>>
 \* every generated history is accepted by the fold; EOF is persistent; at most one outstanding call
 FoldAgrees == HistoryVerdict(hist) \in {"ok", "call-never-returned"} /\ Fold(S0, hist, 1) = s
-EofPersistent == \A i, j \in 1..Len(hist) : (i < j /\ hist[i][2] = 3 /\ hist[j][2] = 3 /\ hist[i][1] \in {2, 5} /\ hist[j][1] \in {2, 5}
+EofPersistent == \A i, j \in 1..Len(hist) : (i < j /\ IsNext(hist[i][2]) /\ hist[j][2] = hist[i][2] /\ hist[i][1] \in {2, 5} /\ hist[j][1] \in {2, 5}
                                              /\ hist[i][3] = 1
-                                             /\ ~\E m \in (i+1)..(j-1) : hist[m][2] = 2) => hist[j][3] = 1
+                                             /\ ~\E m \in (i+1)..(j-1) : IsNew(hist[m][2]) /\ PIdx(hist[m][2]) = PIdx(hist[i][2])) => hist[j][3] = 1
+\* parser values are independent: what one of them is told never changes the state of the other
+ParsersIndependent == [][\A q \in 1..2 : s'.parser[q] # s.parser[q] =>
+                             Len(hist') = Len(hist) + 1 /\ PIdx(hist'[Len(hist')][2]) = q /\ (IsNew(hist'[Len(hist')][2]) \/ IsNext(hist'[Len(hist')][2]))]_vars
 
 \* ---- driver generator (direction A): every legal sequence of exactly MaxEvents operations. The harness executes each sequence on a set
 \* of inputs (Extract acts on the last block NextBlock returned, Rewrite on every block returned so far, Render / AppendBlock / Format / Walk
@@ -73,8 +80,8 @@ EofPersistent == \A i, j \in 1..Len(hist) : (i < j /\ hist[i][2] = 3 /\ hist[j][
 DrvNext == /\ Len(hist) < MaxEvents
            /\ \E op \in Ops :
                 /\ CallOK(op, s)
-                /\ (op \in {4, 5} => s.parser # "none")
-                /\ s' = [s EXCEPT !.parser = IF op = 2 THEN "open" ELSE @]
+                /\ (op \in {4, 5} => s.parser[1] # "none")
+                /\ s' = [s EXCEPT !.parser[PIdx(op)] = IF IsNew(op) THEN "open" ELSE @]
                 /\ hist' = Append(hist, <<5, op, 0>>)
            /\ UNCHANGED <<tid, verdict>>
 DrvEmit == Len(hist) = MaxEvents => PrintT(ToJson([ops |-> [i \in 1..Len(hist) |-> hist[i][2]]]))
